@@ -356,7 +356,7 @@ func runRecoveryTxn(fields []string) string {
 	if err != nil {
 		return "I=setup-error\tO=" + err.Error()
 	}
-	for _, p := range []string{"/ok", "/seed/a", "/seed/b/{x}", "/seed/c"} {
+	for _, p := range []string{"/ok", "/seed/a", "/seed/b/{x}", "/seed/c", "/seed/b", "/seed/b/y"} {
 		if _, err := f.Handle(http.MethodGet, p, okHandler); err != nil {
 			return "I=setup-error\tO=" + err.Error()
 		}
@@ -385,6 +385,18 @@ func runRecoveryTxn(fields []string) string {
 			if kind == "view" {
 				_ = txn.Has(http.MethodGet, "/seed/a")
 				_ = txn.Len()
+				continue
+			}
+			if kind == "updates-u" {
+				// the handler of a route that has children is replaced first, then routes are registered below it
+				if k == 0 {
+					if _, err := txn.Update(http.MethodGet, "/seed/b", okHandler); err != nil {
+						return err
+					}
+				}
+				if _, err := txn.Handle(http.MethodGet, "/seed/b/u"+itoa(k), okHandler); err != nil {
+					return err
+				}
 				continue
 			}
 			if kind == "updates-s" {
@@ -450,7 +462,7 @@ func runRecoveryTxn(fields []string) string {
 		}()
 		var err error
 		switch kind {
-		case "updates", "updates-t1", "updates-t2", "updates-t3", "updates-s":
+		case "updates", "updates-t1", "updates-t2", "updates-t3", "updates-s", "updates-u":
 			err = f.Updates(body)
 		case "view":
 			err = f.View(body)
@@ -559,7 +571,7 @@ func genRecovery(r *Rng, tier string, n int, emit func(string)) {
 		}
 	}
 	// transactions: a panic / an error after every prefix, and completion
-	for _, kind := range []string{"updates", "view", "updates-t1", "updates-t2", "updates-t3", "updates-s"} {
+	for _, kind := range []string{"updates", "view", "updates-t1", "updates-t2", "updates-t3", "updates-s", "updates-u"} {
 		for nops := 0; nops <= 5; nops++ {
 			for pos := 0; pos <= nops; pos++ {
 				emit(fmt.Sprintf("recovery\tT\t%s\t%s\t%d\tp%d", kind, Pick(r, recValues), nops, pos))
